@@ -26,7 +26,7 @@ RULE = ("Each run: victim role, target = k-th outgoing message of the adversary 
         "ways, exit status, global requests, port forward, close) or the banner; one structural mutation drawn from "
         "{truncate at/inside a field, invalid UTF-8, huge/zero/negative integers, bad bool, type byte swap, junk tail, "
         "random bytes, packet framing: no payload / padding-length byte 255, length-1, length}; in 1/4 of the runs the "
-        "target is the first message of a drawn TYPE instead of the k-th message; in 1/8 an earlier message of the "
+        "target is the first message of a drawn TYPE instead of the k-th message; in 1/5 an earlier message of the "
         "adversary is replayed in front of the target instead of mutating it; user key Ed25519/RSA/ECDSA.")
 COMPONENTS = {"real": ["victim Transport/AuthHandler/Channel/kex classes unmodified", "adversary: real Transport with one outgoing message mutated"],
               "simulated": ["socket", "clock", "scheduling", "entropy"]}
@@ -206,13 +206,13 @@ def scenario(sim):
     target_type = None
     if sim.choose(4) == 0:
         if adv_side == "s":      # what a server sends
-            target_type = (7, 7, 7, 6, 51, 53, 60, 91, 92, 81, 82, 98, 99, 100, 52, 2, 4, 80)[sim.choose(18)]
+            target_type = (7, 7, 7, 6, 6, 51, 53, 60, 91, 92, 81, 82, 98, 99, 100, 52, 2, 4, 80, 31, 31, 33, 20)[sim.choose(23)]
         else:                    # what a client sends
-            target_type = (5, 50, 50, 61, 90, 98, 98, 80, 96, 97, 93, 2, 4, 1)[sim.choose(14)]
+            target_type = (5, 50, 50, 61, 90, 98, 98, 80, 96, 97, 93, 2, 4, 1, 30, 30, 20)[sim.choose(17)]
     state = {"n": 0, "done": None}
 
     sent = []
-    replay_case = sim.choose(8) == 0     # instead of mutating: an earlier message of the adversary is sent once more
+    replay_case = sim.choose(5) == 0     # instead of mutating: an earlier message of the adversary is sent once more
 
     def mutate_out(pk, payload):
         k = state["n"]
